@@ -238,7 +238,7 @@ end
 def fmtProgArr : Array (List Fmt.FI) := Gen.fmtProgs.toArray
 def fmtCfg : Fmt.FCfg :=
   { prog := fun k => fmtProgArr.getD k [], htmlKind := Gen.fmtHtmlKind, nopKind := Gen.fmtNopKind,
-    nopFields := Gen.fmtNopFields, nopSemi := Gen.fmtNopSemi, tWs := Gen.fmtTWs, tOpenTag := Gen.fmtTOpenTag }
+    nopFields := Gen.fmtNopFields, nopSemi := Gen.fmtNopSemi, tWs := Gen.fmtTWs, tOpenTag := Gen.fmtTOpenTag, tInc := Gen.fmtTInc, tDec := Gen.fmtTDec }
 
 def hexOr (b : Bytes) : String := if b.isEmpty then "-" else toHex b
 
